@@ -264,6 +264,12 @@ func (g *PG) Expr(t Ty, d int) *canon.Node {
 		body := g.with([]pvar{{p, TInt}, {q, TInt}}, func() *canon.Node { return g.Expr(TInt, d+1) })
 		return li(sy("fn"), li(sy(p), sy(q)), body)
 	case TAny:
+		if r.Intn(3) == 0 {
+			// a map literal with computed values as the value of the enclosing construct (tail/result position);
+			// at most one value is effectful (the order of map-literal values is unspecified)
+			g.stat("map-literal-result")
+			return canon.Ma(map[string]*canon.Node{canon.Marker + "k": g.Expr(TInt, d+1), "s": call("+", canon.In(r.Intn(9)), canon.In(1)), canon.Marker + "c": canon.In(r.Intn(5))})
+		}
 		return g.Expr([]Ty{TInt, TBool, TList}[r.Intn(3)], d+1)
 	}
 	return g.leaf(t)
